@@ -5,6 +5,7 @@ package props
 import (
 	"bytes"
 	"fmt"
+	"iter"
 	"testing"
 
 	"github.com/fluhus/biostuff/sequtil"
@@ -208,6 +209,55 @@ func checkC12(c C12Case, o *Obs) error {
 			}
 			if pass != 1 && n != len(items) {
 				return fmt.Errorf("pass %d over the same iterator value of CanonicalSubsequences(%q,%d) yields %d items, want %d", pass, src, k, n, len(items))
+			}
+		}
+	}
+	// Two iterations in progress at the same time (one over src, one over its reverse
+	// complement, advanced in turn, the second one item behind): each yields its own items,
+	// and the items of one are not disturbed by the other.
+	if len(items) >= 2 {
+		o.Class("interleaved iterations")
+		var gotA, gotB, keptA, keptB [][]byte
+		if p := catch(func() {
+			nextA, stopA := iter.Pull(sequtil.CanonicalSubsequences(src, k))
+			defer stopA()
+			nextB, stopB := iter.Pull(sequtil.CanonicalSubsequences(want, k))
+			defer stopB()
+			doneA, doneB := false, false
+			for round := 0; !(doneA && doneB) && round <= len(src)+2; round++ {
+				if !doneA {
+					if x, ok := nextA(); ok {
+						gotA, keptA = append(gotA, bytes.Clone(x)), append(keptA, x)
+					} else {
+						doneA = true
+					}
+				}
+				if !doneB && round >= 1 {
+					if x, ok := nextB(); ok {
+						gotB, keptB = append(gotB, bytes.Clone(x)), append(keptB, x)
+					} else {
+						doneB = true
+					}
+				}
+			}
+		}); p != nil {
+			return fmt.Errorf("two interleaved iterations of CanonicalSubsequences (over %q and its reverse complement, k=%d) panicked: %v", src, k, p)
+		}
+		for _, pair := range []struct {
+			name      string
+			got, kept [][]byte
+			want      [][]byte
+		}{{"first", gotA, keptA, items}, {"second", gotB, keptB, ritems}} {
+			if len(pair.got) != len(pair.want) {
+				return fmt.Errorf("two interleaved iterations of CanonicalSubsequences (over %q and its reverse complement, k=%d): the %s yields %d items, alone it yields %d", src, k, pair.name, len(pair.got), len(pair.want))
+			}
+			for i := range pair.want {
+				if !bytes.Equal(pair.got[i], pair.want[i]) {
+					return fmt.Errorf("two interleaved iterations of CanonicalSubsequences (over %q and its reverse complement, k=%d): item %d of the %s is %q, alone it is %q", src, k, i, pair.name, pair.got[i], pair.want[i])
+				}
+				if !bytes.Equal(pair.kept[i], pair.want[i]) {
+					return fmt.Errorf("two interleaved iterations of CanonicalSubsequences (over %q and its reverse complement, k=%d): item %d of the %s was %q when yielded and reads %q afterwards", src, k, i, pair.name, pair.want[i], pair.kept[i])
+				}
 			}
 		}
 	}
